@@ -5,6 +5,7 @@
 //!    and reports, per case, whether every observed outcome is admitted by the specification;
 //!  * `<area>-drive ...`: drives the implementation with seeded random histories and writes an
 //!    ndjson trace that a `*Trace.tla` specification validates (impl -> spec).
+mod maps;
 mod replay;
 mod stacks;
 mod util;
@@ -21,6 +22,8 @@ fn main() {
     match args[0].as_str() {
         "stacks-replay" => util::run_cases(rest, stacks::replay_case),
         "stacks-drive" => stacks::drive(rest),
+        "maps-replay" => util::run_cases(rest, maps::replay_case),
+        "maps-drive" => maps::drive(rest),
         other => {
             eprintln!("unknown command {other}");
             std::process::exit(2);
